@@ -15,7 +15,15 @@ Runtime side (the tie):
  (ii) object graph: everything reachable from the module variables and extra_value is walked with pointer identity before and
       after forced collections (harness bin gc); the first-visit-numbered graphs must be equal (= isomorphic rooted ordered
       graphs: content, sharing and cycles preserved) and the Coq `gc` (vm_compute, cases.v route) applied to the BEFORE graph
-      - renumbered at random and padded with garbage cells - must yield exactly the AFTER graph.
+      - renumbered at random and padded with garbage cells - must yield exactly the AFTER graph;
+ (iii) configuration x schedule x post-evaluation differential: for every program and every evaluator configuration
+      ({no profiler, each of the 12 ProfileModes} x {statement hook off, on}) the transcript, the outcome of the module and of a
+      second module evaluated by the same evaluator, the statements seen by the hook, the module variables, "profile data
+      generated", the result of Module::freeze(), the frozen exports read back and "retained heap profile of the frozen module
+      generated" must be identical under {GC disabled, the evaluator's own threshold, every k-th safepoint k in 1,2,7} (the programs
+      include profile-shaped ones whose garbage alone reaches the default threshold); a panic / crash anywhere is a violation; and
+      the documented mechanism is asserted directly: under a heap-profile mode no collection is performed at all (the profilers
+      keep their call records as unreachable heap values - requirement 1 above possible_gc).
 """
 import concurrent.futures
 import importlib.util
@@ -40,6 +48,8 @@ ASSUMPTIONS = [
     "memory safety proper (reads of freed memory, arena layout, pointer tagging, unsafe casts) cannot be exhibited by the Coq model; it is "
     "searched with arena poisoning: a stale pointer is expected to crash or garble the transcript, not proved to",
     "collections only happen at module-level statement boundaries (possible_gc); roots held in native frames of third-party natives are out of scope",
+    "profile contents (timings, byte counts) are not compared across schedules, only whether evaluation, freeze and profile generation succeed "
+    "and what the module / frozen module exports; evaluator configurations = ProfileMode x statement hook (no debugger, no custom extra values)",
     "closure captures, bound-method receivers and partial() arguments are not walkable through the public API: the graph tie treats such values as "
     "leaf cells (their content is covered by the transcripts of (i) only)",
 ]
@@ -565,6 +575,309 @@ def sched_differential(ctx, programs, extra_opts=None):
     return failures, st
 
 
+# ---- configuration x schedule x post-evaluation differential ----------------------------------------------------------
+#
+# "the observable behaviour does not depend on whether, when or how often the heap is collected" quantifies over every
+# evaluator configuration and over everything an embedder can observe AFTER the evaluation as well: for every program and
+# every (profile mode, statement hook) configuration the transcript, the outcome of every evaluated module, the statements
+# seen by the hook, the module's variables, "profile data can be generated", the result of Module::freeze(), the frozen
+# exports and "the retained heap profile of the frozen module can be generated" must be the same under every GC schedule.
+# Mechanism asserted directly (requirement 1 in the comment above possible_gc): the heap profilers keep their call-enter /
+# call-exit records as unreachable heap values in allocation order, so NO collection may run under a heap-profile mode.
+
+PROFILE_MODES = ["heap-summary-allocated", "heap-summary-retained", "heap-flame-allocated", "heap-flame-retained", "heap-allocated",
+                 "heap-retained", "statement", "coverage", "bytecode", "bytecode-pairs", "time-flame", "typecheck"]
+HEAP_PROFILE_MODES = frozenset(m for m in PROFILE_MODES if m.startswith("heap-"))
+CONFIGS = [(mode, hook) for mode in [None] + PROFILE_MODES for hook in (False, True)]
+# "k0" = the evaluator's own threshold (collections happen when a program allocates > 100KB between two safepoints)
+CFG_SCHEDULES = [("nogc", {"disable_gc": True}), ("k0", {"gc_every": 0}), ("k1", {"gc_every": 1}), ("k2", {"gc_every": 2}),
+                 ("k7", {"gc_every": 7})]
+ENC_COST_LIMIT = 4000
+
+_NAME = re.compile(r"[A-Za-z_]\w*")
+
+
+def enc_cost(lines, depth=24):
+    """Upper bound (name granularity, over-approximating: every identifier mentioned in a statement is taken as linked into
+    the statement's first identifier) of the number of nodes the harness' sharing-insensitive, depth-24 encoding of all module variables
+    visits.  Programs whose container graph has two back edges in one cycle would make the frozen-exports encoding explode."""
+    rep = {}
+
+    def find(x):
+        while rep.get(x, x) != x:
+            x = rep[x]
+        return x
+
+    raw = []
+    for line in lines:
+        if line.startswith("emit("):
+            continue
+        ns = _NAME.findall(line)
+        if not ns:
+            continue
+        m = re.match(r"([A-Za-z_]\w*) = ([A-Za-z_]\w*)$", line)
+        if m and m.group(2) not in ("None", "True", "False"):
+            if find(m.group(1)) != find(m.group(2)):
+                rep[find(m.group(1))] = find(m.group(2))      # alias: the same object
+            continue
+        for y in ns[1:]:
+            raw.append((ns[0], y))
+    edges = {}
+    for x, y in raw:
+        edges.setdefault(find(x), []).append(find(y))
+    nodes = set(edges) | {y for ys in edges.values() for y in ys}
+    cost = {n: 1 for n in nodes}
+    for _ in range(depth):
+        cost = {n: min(10 ** 9, 1 + sum(cost[y] for y in edges.get(n, []))) for n in nodes}
+    return sum(cost.values())
+
+
+GARBAGE_STMTS = ["_tmp = list(range(1000))", "_tmp = [str(i) * 20 for i in range(200)]", "_tmp = make_table(60, \"garbage\")",
+                 "_tmp = {str(i): [i] * 30 for i in range(60)}"]
+
+
+def gen_post_program(rng):
+    """Programs shaped like what a profiled build file does: functions calling functions that allocate the values the module
+    retains, natives, closures, records, plus statements that only produce garbage - in the `heavy` variant enough of it
+    (several 100KB) that the evaluator's own threshold triggers collections without any forcing.  The read-back of every
+    variable is a second module evaluated by the same evaluator (`then`)."""
+    seed = rng.getrandbits(48)
+    r = random.Random(seed)
+    heavy = r.random() < 0.4
+    lines = ["def make_row(i, tag):\n    return [i, i + 1, tag + str(i)]",
+             "def make_table(n, tag):\n    return [make_row(i, tag) for i in range(n)]",
+             "def make_index(t):\n    idx = {}\n    for row in t:\n        idx[row[2]] = row\n    return idx",
+             "def wrap(v):\n    def get(extra = None):\n        return [v, extra]\n    return get",
+             "def deep(n, acc):\n    if n == 0:\n        return acc\n    return deep(n - 1, [acc, \"d\" + str(n)])"]
+    live, stats = [], {"post_program": 1, "post_heavy": int(heavy)}
+    k = 0
+
+    def note(s):
+        stats["post." + s] = stats.get("post." + s, 0) + 1
+
+    def garbage():
+        for _ in range(r.randrange(8, 30) if heavy else r.randrange(0, 3)):
+            lines.append(r.choice(GARBAGE_STMTS))
+            note("garbage_stmt")
+
+    for _ in range(r.randrange(4, 12)):
+        k += 1
+        c = r.randrange(10)
+        tables = [n for n, kind in live if kind == "table"]
+        if c <= 1 or not tables:
+            n = "T%d" % k
+            lines.append("%s = make_table(%d, \"t%d_\")" % (n, r.randrange(1, 12), k))
+            live.append((n, "table"))
+            note("table_from_nested_calls")
+        elif c == 2:
+            n = "I%d" % k
+            lines.append("%s = make_index(%s)" % (n, r.choice(tables)))
+            live.append((n, "index"))
+            note("dict_sharing_rows")
+        elif c == 3:
+            n = "W%d" % k
+            lines.append("%s = wrap(%s)" % (n, r.choice(tables)))
+            live.append((n, "fn"))
+            note("closure_over_table")
+        elif c == 4:
+            n = "S%d" % k
+            t = r.choice(tables)
+            lines.append(r.choice(["%s = struct(t = %s, n = len(%s))", "%s = Rec(x = %s, y = len(%s))"]) % (n, t, t))
+            live.append((n, "other"))
+            note("struct_or_record")
+        elif c == 5:
+            t = r.choice(tables)
+            lines.append("%s.append(make_row(%d, \"late\"))" % (t, 90 + k))
+            note("mutation_after_garbage")
+        elif c == 6:
+            n = "D%d" % k
+            lines.append("%s = deep(%d, %s)" % (n, r.randrange(1, 9), r.choice(['"leaf"', "[host_s]", "(1 << 80)"])))
+            live.append((n, "other"))
+            note("recursion")
+        elif c == 7 and len(live) > 1:
+            n, _ = live.pop(r.randrange(len(live)))
+            lines.append("%s = None" % n)
+            note("drop_reference")
+        elif c == 8:
+            n = "M%d" % k
+            lines.append("%s = sorted([make_row(j, \"s\") for j in range(%d)], key = lambda row: -row[0])" % (n, r.randrange(1, 6)))
+            live.append((n, "table"))
+            note("native_calling_back")
+        else:
+            t = r.choice(tables)
+            lines.append("emit(repr(%s[-1]))" % t)
+            note("emit_between")
+        garbage()
+    lines.append("_tmp = None")
+    then = []
+    for n, kind in live:
+        then.append("emit(repr(%s()))" % n if kind == "fn" else "emit(repr(%s))" % n)
+    for n, kind in live:
+        if kind == "table":
+            then.append("%s.append(len(%s))\nemit(len(%s))" % (n, n, n))
+            break
+    return {"id": "p%d" % seed, "src": PREAMBLE + "\n".join(lines) + "\n", "then": ["\n".join(then) + "\n"], "stats": stats}
+
+
+def gen_config_gc_program(rng):
+    """a GcGen program (cycles, aliases, closures, ...) whose final read-back is a second module; bounded encoding cost"""
+    while True:
+        seed = rng.getrandbits(48)
+        r = random.Random(seed)
+        g = GcGen(r, r.choice([10, 16, 24]), link_budget=6)
+        lines = list(g.program())
+        if enc_cost(lines) > ENC_COST_LIMIT:
+            continue
+        keep = len(g.lines)
+        for n in sorted(g.vars):
+            g.emit_var(n)
+        then = g.lines[keep:]
+        stats = dict(g.stats)
+        stats["config_gc_program"] = 1
+        return {"id": "c%d" % seed, "src": PREAMBLE + "\n".join(lines[:keep]) + "\n", "then": ["\n".join(then) + "\n"] if then else [],
+                "stats": stats}
+
+
+def config_programs(ctx, corpus_sched):
+    out = []
+    for p in corpus_sched:
+        if "opts" not in p and enc_cost(p["src"].split("\n")) <= ENC_COST_LIMIT:
+            out.append(p)
+    out += targeted_programs()
+    out += [gen_post_program(ctx.rng) for _ in range(ctx.n(36, 400))]
+    out += [gen_config_gc_program(ctx.rng) for _ in range(ctx.n(24, 300))]
+    for _ in range(ctx.n(12, 150)):
+        seed = ctx.rng.getrandbits(48)
+        p = progs.generate(seed, max_stmts=18, max_depth=3, p_fail=0.25)
+        st = {"progs_block": 1}
+        st.update({"progs." + k: v for k, v in p["stats"].items()})
+        out.append({"id": "m%d" % seed, "src": p["src"] + "\n", "stats": st})
+    return out
+
+
+def config_name(mode, hook):
+    return "profile=%s stmt_hook=%s" % (mode or "none", "on" if hook else "off")
+
+
+def post_view(r):
+    """everything an embedder can observe during and after the evaluation (addresses and timings are not part of it)"""
+    return {"steps": [[s["tr"], s["out"], s.get("stack_after")] for s in r["steps"]], "module_vars": r.get("exports"),
+            "profile_generated": r.get("profile_ok"), "freeze": r.get("freeze"), "stmts_seen_by_hook": r.get("stmts"),
+            "stmt_lines_seen_by_hook": r.get("stmt_lines")}
+
+
+def config_differential(ctx, programs, configs=None):
+    configs = list(configs or CONFIGS)
+    cases, index = [], []
+    for pi, p in enumerate(programs):
+        for gi, (mode, hook) in enumerate(configs):
+            for sname, sopts in CFG_SCHEDULES:
+                o = {"poison": True, "set_vars": HOST_VARS, "exports": True, "freeze_main": True}
+                if mode:
+                    o["profile"] = mode
+                if hook:
+                    o["stmt_hook"] = True
+                o.update(sopts)
+                c = {"src": p["src"], "opts": o}
+                if p.get("then"):
+                    c["then"] = p["then"]
+                cases.append(c)
+                index.append((pi, gi, sname))
+    res, crashes = run_all(ctx, "eval", cases, timeout=1500)
+    st = {"programs": len(programs), "configurations": len(configs), "schedules": [s for s, _ in CFG_SCHEDULES], "runs": len(cases),
+          "program_configs_identical": 0, "forced": 0, "safepoints": 0, "forced_under_heap_profile": 0, "frozen_ok": 0, "freeze_err": 0,
+          "frozen_values_compared": 0, "retained_profiles_generated": 0, "profiles_generated": 0, "failing_outcomes": 0,
+          "hook_statements": 0, "by_mode": {}}
+    per = {}
+    for ci, (pi, gi, sname) in enumerate(index):
+        per.setdefault((pi, gi), {})[sname] = (ci, res[ci])
+    failures = []
+    for (pi, gi), runs in per.items():
+        p, (mode, hook) = programs[pi], configs[gi]
+        cfg = config_name(mode, hook)
+
+        def rep(ci, sname, **kw):
+            d = {"kind": "config", "src": p["src"], "then": p.get("then", []), "profile": mode, "stmt_hook": hook, "schedule": sname,
+                 "opts": cases[ci]["opts"]}
+            d.update(kw)
+            return d
+
+        if any(r is None and ci not in crashes for ci, r in runs.values()):
+            st["unknown_after_shard_death"] = st.get("unknown_after_shard_death", 0) + 1
+            continue
+        bad = False
+        for sname, (ci, r) in runs.items():
+            if ci in crashes:
+                rc, log = crashes[ci]
+                failures.append({"key": "cfg-crash", "what": "program %s, configuration [%s], schedule %s, evaluate + freeze: the process died (rc=%s %s)"
+                                 % (p["id"], cfg, sname, rc, log.strip()[-120:]), "replay": rep(ci, sname, rc=rc)})
+                bad = True
+            elif "panic" in r:
+                others = sorted(s for s, (_, r2) in runs.items() if r2 is not None and "panic" not in r2)
+                failures.append({"key": "cfg-panic", "what": "program %s, configuration [%s], schedule %s: panic during evaluate / freeze / reading the "
+                                 "frozen module back: %s (no panic under schedules %s)" % (p["id"], cfg, sname, str(r["panic"])[:160], others),
+                                 "replay": rep(ci, sname, impl=r)})
+                bad = True
+            elif garbled(r) or "steps" not in r:
+                failures.append({"key": "cfg-garbled", "what": "program %s, configuration [%s], schedule %s: poison pattern / invalid text in the results"
+                                 % (p["id"], cfg, sname), "replay": rep(ci, sname, impl=r if "steps" not in r else post_view(r))})
+                bad = True
+            else:
+                sp, forced = r["gc"]
+                if sname != "nogc":
+                    st["forced"] += forced
+                    st["safepoints"] += sp
+                if sname in ("k1", "k2", "k7"):
+                    k = int(sname[1:])
+                    if mode in HEAP_PROFILE_MODES:
+                        st["forced_under_heap_profile"] += forced
+                        if forced:
+                            failures.append({"key": "gc-under-heap-profile", "what": "program %s, configuration [%s], schedule %s: %d collections "
+                                             "were performed at %d safepoints although a heap profile is being recorded (the profilers keep call "
+                                             "records as unreachable heap values; possible_gc requirement 1: no GC while profiling)"
+                                             % (p["id"], cfg, sname, forced, sp), "replay": rep(ci, sname, gc=[sp, forced])})
+                            bad = True
+                    elif forced != sp // k:
+                        failures.append({"key": "cfg-hook-count", "what": "program %s, configuration [%s], schedule %s: %d safepoints but %d forced "
+                                         "collections (expected %d)" % (p["id"], cfg, sname, sp, forced, sp // k),
+                                         "replay": rep(ci, sname, gc=[sp, forced])})
+        if bad:
+            continue
+        same = True
+        ref = post_view(runs["nogc"][1])
+        for sname, (ci, r) in runs.items():
+            v = post_view(r)
+            if v != ref:
+                same = False
+                part = next(k for k in ref if ref[k] != v[k])
+                failures.append({"key": "cfg-schedule-diff:" + part, "what": "program %s, configuration [%s]: %s under schedule %s differs from "
+                                 "GC disabled: nogc=%s | %s=%s" % (p["id"], cfg, part, sname, json.dumps(ref[part])[:220], sname,
+                                                                   json.dumps(v[part])[:220]),
+                                 "replay": rep(ci, sname, differs=part, nogc=ref, impl=v)})
+                break
+        if not same:
+            continue
+        st["program_configs_identical"] += 1
+        r = runs["nogc"][1]
+        bm = st["by_mode"].setdefault(mode or "none", {"identical": 0, "forced": 0})
+        bm["identical"] += 1
+        bm["forced"] += sum(rr["gc"][1] for s, (_, rr) in runs.items() if s != "nogc")
+        fz = r.get("freeze") or {}
+        if "ok" in fz:
+            st["frozen_ok"] += 1
+            st["frozen_values_compared"] += len(fz["ok"])
+            if fz.get("heap_profile") is True:
+                st["retained_profiles_generated"] += 1
+        else:
+            st["freeze_err"] += 1
+        if r.get("profile_ok") is True:
+            st["profiles_generated"] += 1
+        if any("err" in s["out"] for s in r["steps"]):
+            st["failing_outcomes"] += 1
+        st["hook_statements"] += r.get("stmts") or 0
+    return failures, st
+
+
 # ---- object graph tie --------------------------------------------------------------------------------------------
 
 def canon_graph(g):
@@ -788,6 +1101,18 @@ def correspond(ctx):
         st["profile:" + mode] = {"programs": st2["programs"], "agree": st2["agree"], "forced": st2["forced"]}
     if st["forced"] == 0:
         broken.append(("gc-hook", "no forced collection happened: the cfg(starlark_verif) safepoint hook is inactive"))
+    # every (profile mode, statement hook) configuration x GC schedule, followed by Module::freeze() and reading the frozen module back
+    cprogs = config_programs(ctx, csched)
+    cf, cst = config_differential(ctx, cprogs)
+    failures += cf
+    ctx.log("configuration differential: %d programs x %d configurations x %d schedules = %d runs (evaluate, then, freeze, read back), "
+            "identical=%d, forced collections=%d (under heap-profile modes: %d), frozen modules=%d, retained profiles=%d"
+            % (cst["programs"], cst["configurations"], len(CFG_SCHEDULES), cst["runs"], cst["program_configs_identical"], cst["forced"],
+               cst["forced_under_heap_profile"], cst["frozen_ok"], cst["retained_profiles_generated"]))
+    if cst["forced"] == 0 and not cf:
+        broken.append(("gc-hook", "configuration differential: no forced collection happened"))
+    if cst["retained_profiles_generated"] == 0 and not cf:
+        broken.append(("freeze-profile", "configuration differential: no retained heap profile was generated from a frozen module"))
     gprogs = cgraph + [gen_graph_program(ctx.rng) for _ in range(ngraph)]
     gf, gst, gbroken = graph_tie(ctx, gprogs)
     failures += gf
@@ -798,9 +1123,10 @@ def correspond(ctx):
     if gst["graphs"] and gst["model_agree"] == 0 and not gf:
         broken.append(("model-run", "no graph case was evaluated by the Coq model"))
     cov = {
-        "evaluations": st["runs"] + sum(st[k]["programs"] * len(SCHEDULES) for k in st if k.startswith("profile:")) + len(gprogs),
+        "evaluations": st["runs"] + sum(st[k]["programs"] * len(SCHEDULES) for k in st if k.startswith("profile:")) + len(gprogs) + cst["runs"],
         "distinct_nontrivial": len({p["src"] for p in programs if p["src"].count("\n") >= 10}) + gst["graphs"],
-        "rule": "schedule differential: distinct program texts with at least 10 lines (each run under 6 GC schedules with arena poisoning); "
+        "rule": "schedule differential: distinct program texts with at least 10 lines (each run under 6 GC schedules with arena poisoning; "
+                "the configuration differential - 26 evaluator configurations x 5 schedules + freeze - is counted in evaluations only); "
                 "graph tie: programs whose object graph was walked before/after forced collections and replayed on the Coq collector",
         "schedules": [s for s, _ in SCHEDULES],
         "programs": st["programs"],
@@ -812,7 +1138,9 @@ def correspond(ctx):
         "transcript_items_compared": st["tr_items"],
         "profiled_slices": {k: v for k, v in st.items() if k.startswith("profile:")},
         "graph_tie": gst,
-        "traces_validated_against_impl": st["agree"] + gst["model_agree"],
+        "configuration_differential": cst,
+        "configuration_input_distribution": merge_stats(cprogs),
+        "traces_validated_against_impl": st["agree"] + gst["model_agree"] + cst["program_configs_identical"],
         "trace_table_rows": len(rows),
         "trace_table_unparsed": unparsed,
         "trace_table_incomplete": incomplete,
@@ -857,6 +1185,11 @@ def replay(ctx, rep):
         return {"coverage": {"evaluations": 1, "distinct_nontrivial": 1, "samples": [p["src"]]}, "failures": f, "broken": broken}
     if "src" not in r:
         return {"coverage": {}, "failures": []}
+    if r.get("kind") == "config":
+        p = {"id": "replay", "src": r["src"], "then": r.get("then") or []}
+        f, st = config_differential(ctx, [p], configs=[(r.get("profile"), bool(r.get("stmt_hook")))])
+        return {"coverage": {"evaluations": st["runs"], "distinct_nontrivial": 1, "samples": [r["src"]], "configuration_differential": st},
+                "failures": f}
     p = {"id": "replay", "src": r["src"]}
     if isinstance(r.get("opts"), dict) and r["opts"].get("profile"):
         f, st = sched_differential(ctx, [p], extra_opts={"profile": r["opts"]["profile"]})
@@ -880,13 +1213,16 @@ META = {
                   "before-fill order of heap_copy_impl / tuple / array. The property on the real collector is decided by correspondence: "
                   "generated programs under 6 GC schedules with the freed arena poisoned must give identical transcripts/outcomes without a "
                   "crash, and object graphs walked with pointer identity before/after forced collections must be equal and equal to the Coq "
-                  "gc's output on the before-graph.",
+                  "gc's output on the before-graph; and for every evaluator configuration (13 profile settings x statement hook on/off) "
+                  "evaluation + second module + Module::freeze() + frozen exports + retained heap profile must be identical under 5 GC "
+                  "schedules, with no collection at all while a heap profile is recorded.",
     "level_note": "Trusted: Coq kernel; Heap/Copy.v as mirror of heap_copy_impl/Tracer::adjust; the syntactic translator trace.py (best effort: "
                   "field-name granularity, accessor resolution by method name within a file); hooks set_gc_every/set_poison; harness bins. "
                   "Not modelled / searched only: reads of freed memory, arena layout, pointer tagging, drop order of the old arena, values held "
                   "only by native frames; closure captures / bound-method receivers / partial arguments are opaque to the graph walk (covered by "
                   "transcripts). Collections are only exercised at the safepoints the evaluator offers (module-level statement boundaries).",
     "technique": "Coq proof of a two-space copying collector model (invariant + isomorphism + simulation) ; extracted Trace-coverage table closed by "
-                 "vm_compute ; schedule-differential testing with arena poisoning ; object-graph isomorphism tie replayed on the Coq collector",
+                 "vm_compute ; schedule-differential testing with arena poisoning ; object-graph isomorphism tie replayed on the Coq collector ; "
+                 "configuration x schedule x post-evaluation (freeze, frozen exports, retained profile) differential",
     "design_ref": "DESIGN.md section 4 C03, section 6, Appendix A (C03 / C04)",
 }
